@@ -332,4 +332,53 @@ def stepStore (st : Store) (toks : List String) : Option (Store × String) :=
   if toks = ["reset"] then some ([], "ok")
   else (stepEffect st toks).map fun r => (r.1.apply st, r.2)
 
+/-! ## Caller-owned arrays -/
+
+/-- The grids plus the arrays the *caller* owns and passes to constructors — possibly the same
+array several times: for several axes, for `delta` and `zero`, for coordinates and weights, for
+several grids.  Constructors copy their inputs, so a grid only ever holds *values*: no request
+other than `arr` touches `arrays`, and an operation acts once per axis however the grid was built. -/
+structure World where
+  grids : Store := []
+  arrays : List (List Rat) := []
+
+/-- weights argument of `newfrom`: `-`, `s:<rat>` or `@k` (caller array `k`) -/
+def weightsFrom (arrays : List (List Rat)) (s : String) : Option Weights :=
+  if s == "-" then some .none
+  else if s.startsWith "s:" then (parseRat? (s.drop 2).toString).map .scalar
+  else if s.startsWith "@" then (parseNat? (s.drop 1).toString).bind fun k => (arrays[k]?).map .array
+  else none
+
+/-- coordinates built from caller arrays given by index -/
+def coordsFrom (arrays : List (List Rat)) : List String → Option Coords
+  | ["reg", d, n, z] => do
+    let d ← parseNat? d; let z ← parseNat? z; let n ← parseNatList? n
+    let dv ← arrays[d]?; let zv ← arrays[z]?
+    let a ← zip3? dv n zv
+    pure (.regular a)
+  | ["sep", idx] => do
+    let idx ← parseNatList? idx
+    let axes ← idx.mapM fun k => arrays[k]?
+    pure (.separated axes)
+  | ["uns", idx] => do
+    let idx ← parseNatList? idx
+    let cols ← idx.mapM fun k => arrays[k]?
+    pure (.unstructured cols)
+  | _ => none
+
+/-- One request against grids + caller arrays: `arr [..]` registers a caller array, `arrs` lists
+them, `newfrom sys kind <indices…> <weights>` constructs a grid from caller arrays, everything
+else is `stepStore` on the grids. -/
+def stepWorld (w : World) : List String → Option (World × String)
+  | ["reset"] => some ({}, "ok")
+  | ["arr", l] => (parseRatList? l).map fun l => ({ w with arrays := w.arrays ++ [l] }, s!"ok {w.arrays.length}")
+  | ["arrs"] => some (w, "ok " ++ showRatLists w.arrays)
+  | "newfrom" :: sys :: rest =>
+    match parseSys? sys, rest.getLast?, coordsFrom w.arrays rest.dropLast with
+    | some sys, some wt, some c =>
+      (weightsFrom w.arrays wt).map fun wt =>
+        ({ w with grids := w.grids.push { system := sys, coords := c, weights := wt } }, s!"ok {w.grids.length}")
+    | _, _, _ => none
+  | toks => (stepStore w.grids toks).map fun r => ({ w with grids := r.1 }, r.2)
+
 end HcipyVerif.Grid
